@@ -118,8 +118,18 @@ def interF (args : List String) : Option String := do
     | some m => some (";".intercalate (m.map (showList showF)))
   | _ => none
 
+/-- `stepper.statemap direct|inverse perm b0,b1,…` (symbols as naturals) → site-order string or `none`. -/
+def stateMapF (args : List String) : Option String := do
+  match args with
+  | [m, perm, b] =>
+    let m ← (if m = "direct" then some StateMap.direct else if m = "inverse" then some StateMap.inverse else none)
+    match installedString m (← parseList String.toNat? perm) (← parseList String.toNat? b) with
+    | none => some "none"
+    | some r => some (showList (fun (n : Nat) => toString n) r)
+  | _ => none
+
 def handlers : List (String × (List String → Option String)) :=
   [("stepper.run", runF), ("stepper.noisy", noisyF), ("stepper.nsc", nscF),
-   ("stepper.drive", driveF), ("stepper.inter", interF)]
+   ("stepper.drive", driveF), ("stepper.inter", interF), ("stepper.statemap", stateMapF)]
 
 end EmuVerif.Drv.Stepper
